@@ -120,6 +120,43 @@ def _rng(ctx, kind, unit, K, direction, via, nmax=12):
     ctx.observe("vals", [fields(v) if not is_date else [v.year, v.month, v.day] for v in got])
 
 
+def zone_iter(ctx, shape):
+    """direct iteration (days) over DateTimes in a zone with a transition near the interval"""
+    with cut(ctx, "pendulum.interval", "precise_diff", _no_breakdown):
+        from props.common import make_zone, resolve_wall, wall_s, off_seconds
+        P = ctx.P
+        y, m, d, h, mi, s, us = sym_wall(ctx, "a", 2000, 2000)
+        ctx.assume(AND(s == 0, us == 0))
+        tz, Ts, offs = make_zone(ctx, "Verif/A", cal.ymd2ord(y, m, d), max_days=3, shape=shape)
+        w = cal.ymd2ord(y, m, d) * 86400 + cal.sod(h, mi, 0)
+        _, offa, nva = resolve_wall(w, Ts, offs, False)
+        ctx.assume(nva == 1)
+        start = P.DateTime(y, m, d, h, mi, 0, 0, tzinfo=tz)
+        # the end: 2 days later on the wall clock plus/minus up to a day (so that 2 or 3 values fit)
+        extra = ctx.int("extra_h", -23, 23)
+        we = w + 2 * 86400 + extra * 3600
+        _, offe, nve = resolve_wall(we, Ts, offs, False)
+        ctx.assume(nve == 1)
+        eo, es = divmod(we, 86400)
+        ey, em, ed = cal.ord2ymd(eo)
+        end = P.DateTime(ey, em, ed, es // 3600, es % 3600 // 60, 0, 0, tzinfo=tz)
+        itv = P.Interval(start, end)
+        got = []
+        for v in itv:
+            got.append(v)
+            if len(got) > 4:
+                break
+        ctx.claim("finite", len(got) <= 4)
+        u_end = we - offe
+        for i, v in enumerate(got):
+            wi, offi, nvi = resolve_wall(w + i * 86400, Ts, offs, True)      # start.add(days=i): wall clock + construction rules
+            ctx.claim(f"value {i} is start.add(days={i})", AND(wall_s(v) == wi, off_seconds(v) == offi))
+            ctx.claim(f"value {i} not beyond the end", wall_s(v) - off_seconds(v) <= u_end)
+        nw, noff, _ = resolve_wall(w + len(got) * 86400, Ts, offs, True)
+        ctx.claim("stops only when the next value lies beyond the end", nw - noff > u_end)
+        ctx.observe("n", len(got))
+
+
 def contains(ctx, kind):
     with cut(ctx, "pendulum.interval", "precise_diff", _no_breakdown):
         P = ctx.P
@@ -146,5 +183,8 @@ def cases(tier):
     for kind in ("date", "utc"):
         out.append(dict(name=f"{kind} iteration by days", fn=rng, params=dict(kind=kind, unit="days", K=K, direction="forward", via="iter"),
                         bounds=f"direct iteration (days), at most {K} values"))
+    for shape in ("gap", "overlap"):
+        out.append(dict(name=f"zone iteration by days {shape}", fn=zone_iter, params=dict(shape=shape),
+                        bounds="every start (whole minutes, year 2000) in a zone with one transition within +-3 days, end 2 days later +-23 h"))
     out.append(dict(name="contains", fn=contains, params=dict(kind="utc"), bounds="every triple of UTC DateTimes in years 1998..2000"))
     return out
